@@ -60,7 +60,9 @@ Steps(s, m, decoded) ==
                              IF Encodable(m2) THEN [panic |-> FALSE, err |-> FALSE, wire |-> EncMsg(Norm(m2)), insame |-> TRUE, heldsame |-> TRUE, outfresh |-> TRUE]
                                               ELSE [panic |-> FALSE, insame |-> TRUE, heldsame |-> TRUE])
                    [] o = "protect" -> Step("heap_protect", "C20", FALSE, [suite |-> (Len(s) % 9) + 1, role |-> (Len(s) % 2 = 0)],
-                                            [panic |-> FALSE, err |-> FALSE, srchdr |-> HdrOf(m), orig |-> Norm(m).payloads, held |-> Norm(m).payloads, nsk |-> 1, outfresh |-> TRUE, skplain |-> TRUE])
+                                            \* (outside the encodable domain protection may be refused -- then the message stays as it was)
+                                            IF Encodable(m) THEN [panic |-> FALSE, err |-> FALSE, srchdr |-> HdrOf(m), orig |-> Norm(m).payloads, held |-> Norm(m).payloads, nsk |-> 1, outfresh |-> TRUE, skplain |-> TRUE]
+                                                            ELSE [panic |-> FALSE, srchdr |-> HdrOf(m), orig |-> Norm(m).payloads])
                    [] OTHER -> Step("heap_observe", "C20", FALSE, [x |-> 0],
                                     IF decoded THEN [panic |-> FALSE, dmsg |-> DecMsg(m).payloads, orig |-> Norm(m).payloads, held |-> Norm(m).payloads, srchdr |-> HdrOf(m), heldsame |-> TRUE, insame |-> TRUE, protsame |-> TRUE]
                                                ELSE [panic |-> FALSE, orig |-> Norm(m).payloads, held |-> Norm(m).payloads, srchdr |-> HdrOf(m), heldsame |-> TRUE, insame |-> TRUE, protsame |-> TRUE])
